@@ -129,6 +129,7 @@ func genC07(o *vcoq.Out, r *vcoq.Rand, tier string) error {
 			g.modelSeq(spec, 24)
 		}
 	}
+	g.scenarios()
 	ce := o.Extra["coverage_extra"].(map[string]any)
 	ce["monitor_operations"] = g.modelOps
 	ce["monitor_histogram"] = g.hist
